@@ -15,6 +15,7 @@ Inductive hop :=
 | HPut (k v : N)
 | HRead (k got : N)                                  (* Get(k); got = field of the returned object *)
 | HMutate (k v got : N)                              (* Get(k); got = field; then field := v through the pointer *)
+| HPoke (k v : N)                                     (* field := v through the pointer last obtained for k (no Get) *)
 | HDelete (k : N)
 | HEvict (num den : nat) (saved : list (N * N))      (* Evict(num/den) + eviction barrier; saved = (key, value) serialized, in order *)
 | HEvictHold (num den : nat) (saved : list (N * N)) (held : N)   (* as HEvict, but the last save (of `held`) is blocked in the gate *)
@@ -41,15 +42,20 @@ Record st := {
   s_wbp : N -> bool;          (* a WriteBack happened since the key's last touch *)
   s_sigwb : N -> bool;        (* ... and then an eviction / flush: signature writeback_before_evict *)
   s_sigif : N -> bool;        (* a read of the key overlapped its in-flight save: signature read_overlaps_save *)
+  s_fresh : N -> bool;        (* the pointer the client holds for the key is the object the cache holds (no eviction,
+                                 flush or delete since the key's last Put/Get) *)
+  s_unk : N -> bool;          (* a mutation went through a pointer that may be stale: the specification does not say
+                                 whether it is visible; reads of the key are not judged until its next Put/mutation *)
   s_held : option N           (* key whose save is blocked in the gate *)
 }.
 
 Definition st0 : st :=
   {| s_mc := c_empty; s_sm := fun _ => None; s_wbp := fun _ => false; s_sigwb := fun _ => false;
-     s_sigif := fun _ => false; s_held := None |}.
+     s_sigif := fun _ => false; s_fresh := fun _ => false; s_unk := fun _ => false; s_held := None |}.
 
 (* a spec failure about key k is attributed to a listed finding only if k's history carries its signature *)
 Definition classify (s : st) (k : N) (what : string) : verdict :=
+  if s_unk s k then Ok else
   if s_sigwb s k then Known "writeback-drop"
   else if s_sigif s k then Known "inflight-evict-stale-read"
   else SpecFails what.
@@ -86,7 +92,8 @@ Fixpoint synth (fuel : nat) (seen : list N) (l : lfu (K:=N) (V:=N)) : list N :=
   end.
 
 Definition with_mc (s : st) (c : cacheN) : st :=
-  {| s_mc := c; s_sm := s_sm s; s_wbp := s_wbp s; s_sigwb := s_sigwb s; s_sigif := s_sigif s; s_held := s_held s |}.
+  {| s_mc := c; s_sm := s_sm s; s_wbp := s_wbp s; s_sigwb := s_sigwb s; s_sigif := s_sigif s;
+     s_fresh := s_fresh s; s_unk := s_unk s; s_held := s_held s |}.
 
 Fixpoint drain (wb : bool) (n : nat) (c : cacheN) : cacheN :=
   match n with O => c | S n' => drain wb n' (fst (stepN c (OSaveCompletes wb))) end.
@@ -94,13 +101,17 @@ Fixpoint drain (wb : bool) (n : nat) (c : cacheN) : cacheN :=
 (* one harness op: returns the new state and the verdicts it produced *)
 Definition touch (s : st) (k : N) : st :=
   {| s_mc := s_mc s; s_sm := s_sm s; s_wbp := fset k false (s_wbp s); s_sigwb := s_sigwb s;
-     s_sigif := if is_held s k then fset k true (s_sigif s) else s_sigif s; s_held := s_held s |}.
+     s_sigif := if is_held s k then fset k true (s_sigif s) else s_sigif s;
+     s_fresh := fset k true (s_fresh s); s_unk := s_unk s; s_held := s_held s |}.
 Definition store (s : st) (k : N) (x : option N) : st :=
   {| s_mc := s_mc s; s_sm := fset k x (s_sm s); s_wbp := fset k false (s_wbp s); s_sigwb := fset k false (s_sigwb s);
-     s_sigif := fset k false (s_sigif s); s_held := s_held s |}.
+     s_sigif := fset k false (s_sigif s);
+     s_fresh := fset k (match x with Some _ => true | None => false end) (s_fresh s);
+     s_unk := fset k false (s_unk s); s_held := s_held s |}.
 Definition mark_evict (s : st) (held : option N) : st :=
   {| s_mc := s_mc s; s_sm := s_sm s; s_wbp := s_wbp s;
-     s_sigwb := fun k => s_sigwb s k || s_wbp s k; s_sigif := s_sigif s; s_held := held |}.
+     s_sigwb := fun k => s_sigwb s k || s_wbp s k; s_sigif := s_sigif s;
+     s_fresh := fun _ => false; s_unk := s_unk s; s_held := held |}.
 
 Definition model_read (s : st) (k got : N) : st * verdict :=
   match stepN (s_mc s) (ORead k) with
@@ -124,8 +135,8 @@ Definition do_hop (keys : list N) (s : st) (h : hop) (ob : obs) : st * list verd
       let expected := match s_sm s0 k with Some v => v | None => dfltN k end in
       let sv := if N.eqb got expected then Ok else classify s0 k "Get returned something else than the value last stored or mutated (or the default)" in
       let (s1, v1) := model_read s0 k got in
-      ({| s_mc := s_mc s1; s_sm := fset k (Some expected) (s_sm s1); s_wbp := s_wbp s1; s_sigwb := s_sigwb s1;
-          s_sigif := s_sigif s1; s_held := s_held s1 |}, [sv; v1])
+      ({| s_mc := s_mc s1; s_sm := fset k (Some (if s_unk s1 k then got else expected)) (s_sm s1); s_wbp := s_wbp s1; s_sigwb := s_sigwb s1;
+          s_sigif := s_sigif s1; s_fresh := s_fresh s1; s_unk := fset k false (s_unk s1); s_held := s_held s1 |}, [sv; v1])
   | HMutate k v got =>
       let s0 := touch s k in
       let expected := match s_sm s0 k with Some v => v | None => dfltN k end in
@@ -135,7 +146,17 @@ Definition do_hop (keys : list N) (s : st) (h : hop) (ob : obs) : st * list verd
       let held := is_held s2 k in
       let s3 := store s2 k (Some v) in
       ({| s_mc := s_mc s3; s_sm := s_sm s3; s_wbp := s_wbp s3; s_sigwb := s_sigwb s3;
-          s_sigif := if held then fset k true (s_sigif s3) else s_sigif s3; s_held := s_held s3 |}, [sv; v1; v2])
+          s_sigif := if held then fset k true (s_sigif s3) else s_sigif s3;
+          s_fresh := s_fresh s3; s_unk := s_unk s3; s_held := s_held s3 |}, [sv; v1; v2])
+  | HPoke k v =>
+      (* the model always knows where the mutation lands; the specification only when the pointer is fresh *)
+      let (s1, v1) := model_unit s (OMutate k (fun _ => v)) "Mutate through a held pointer" in
+      let s2 := if s_fresh s1 k
+                then {| s_mc := s_mc s1; s_sm := fset k (Some v) (s_sm s1); s_wbp := s_wbp s1; s_sigwb := s_sigwb s1;
+                        s_sigif := s_sigif s1; s_fresh := s_fresh s1; s_unk := s_unk s1; s_held := s_held s1 |}
+                else {| s_mc := s_mc s1; s_sm := s_sm s1; s_wbp := s_wbp s1; s_sigwb := s_sigwb s1;
+                        s_sigif := s_sigif s1; s_fresh := s_fresh s1; s_unk := fset k true (s_unk s1); s_held := s_held s1 |} in
+      (s2, [v1])
   | HDelete k =>
       let (s1, v1) := model_unit s (ODelete k) "Delete" in
       let s2 := store s1 k None in
@@ -163,12 +184,14 @@ Definition do_hop (keys : list N) (s : st) (h : hop) (ob : obs) : st * list verd
   | HRelease saved =>
       let v2 := corr (kvs_eqb (c_evq (s_mc s)) saved) "Release: model's in-flight save differs from what was serialized" in
       let c2 := drain false (length (c_evq (s_mc s))) (s_mc s) in
-      ({| s_mc := c2; s_sm := s_sm s; s_wbp := s_wbp s; s_sigwb := s_sigwb s; s_sigif := s_sigif s; s_held := None |}, [v2])
+      ({| s_mc := c2; s_sm := s_sm s; s_wbp := s_wbp s; s_sigwb := s_sigwb s; s_sigif := s_sigif s;
+          s_fresh := s_fresh s; s_unk := s_unk s; s_held := None |}, [v2])
   | HWriteBack saved =>
       let (s1, v1) := model_unit s (OWriteBack (map fst saved)) "WriteBack: a key outside the lowest-frequency bucket was written back (or too often)" in
       let v2 := corr (kvs_eqb (c_wbq (s_mc s1)) saved) "WriteBack: model hands other values to the write-back goroutine" in
       let c2 := drain true (length (c_wbq (s_mc s1))) (s_mc s1) in
-      ({| s_mc := c2; s_sm := s_sm s1; s_wbp := fun _ => true; s_sigwb := s_sigwb s1; s_sigif := s_sigif s1; s_held := s_held s1 |}, [v1; v2])
+      ({| s_mc := c2; s_sm := s_sm s1; s_wbp := fun _ => true; s_sigwb := s_sigwb s1; s_sigif := s_sigif s1;
+          s_fresh := s_fresh s1; s_unk := s_unk s1; s_held := s_held s1 |}, [v1; v2])
   | HFlushReopen saved =>
       let v2 := corr (kvs_perm (app (c_evq (s_mc s)) (flush_sends (c_lfu (s_mc s)))) saved) "Flush: model saves other entries than the implementation serialized" in
       let (s1, v1) := model_unit s OFlushReopen "Flush" in
